@@ -1170,7 +1170,7 @@ func (m *Monitor) afterInvoke(i int, op *Op, f *Fn, rec *OpRec) {
 			m.violate("C05,C13", "C05.invoke-must-cycle", "a dependency cycle is the only reason to fail but verdict is %s (%v)", cl, rec.Err)
 		}
 		if cl == VCycle && !m.gpCyclic(true) {
-			m.violate("C05,C13,C04,C08,C16", "C05.invoke-spurious-cycle", "Invoke reports a cycle but the permissive graph (with decorators) is acyclic: %v", rec.Err)
+			m.violate("C05,C13,C04,C08,C16"+m.afterFailure("C07"), "C05.invoke-spurious-cycle", "Invoke reports a cycle but the permissive graph (with decorators) is acyclic: %v", rec.Err)
 		}
 		if cl != VCycle && !st.cycAll && cl != VPanic {
 			switch st.av {
